@@ -57,6 +57,16 @@ def variant_items():
                         elif tail == "bullets":
                             lines += ["  * bullet one", "  * due:: 2024-06-01"]
                         out.append(lines)
+    # bodies whose first word merely looks like part of the prefix
+    for kind in "-ox~<>":
+        prios = [None] if kind == "-" else [None, "P1"]
+        for prio in prios:
+            for ident in (None, "2024-02-03"):
+                for lead in ("P1", "P15", "o", "x"):
+                    pre = kind + (f" {prio}" if prio else "")
+                    if lead == "P1" and kind != "-" and prio is None:
+                        continue  # that IS the priority of a todo, covered above
+                    out.append([pre + " " + (ident + " " if ident else "") + lead + " lookalike first word"])
     return out
 
 
